@@ -43,3 +43,138 @@ package datacodec
 //@ func (*mapCodec).createInjector$1
 //@   prop C04
 //@   requires nonneg: size >= 0
+
+// ---- C13: numeric conversions never lose information silently --------------------------------------------
+
+// Every narrowing helper XToY(val) returns an error exactly when val is outside Y's range, and otherwise a result
+// mathematically equal to val. Z(e) is the mathematical value of a machine integer, InRange(x, z) says that z lies
+// in the range of x's type.
+
+//@ funcs ^u?int(8|16|32|64)?To(Ui|I|i|ui)nt(8|16|32|64)$
+//@   prop C13
+//@   ensures range: err == nil <==> InRange(result0, Z(val))
+//@   ensures exact: err == nil ==> Z(result0) == Z(val)
+//@   assigns nothing
+
+// Conversions to int/uint take the platform's int size; strconv.IntSize is 64 here. For 64 every in-range value is
+// delivered exactly; for 32 the int32/uint32 range applies.
+
+//@ funcs ^u?int(8|16|32|64)?To(Ui|I|i|ui)nt$
+//@   prop C13
+//@   ensures range: err == nil <==> InRange(result0, Z(val))
+//@   ensures exact: err == nil ==> Z(result0) == Z(val)
+//@   assigns nothing
+
+//@ func int64ToInt
+//@   prop C13
+//@   ensures range64: intSize != 32 ==> err == nil
+//@   ensures range32: intSize == 32 ==> (err == nil <==> InRange(int32, Z(val)))
+//@   ensures exact: err == nil ==> Z(result0) == Z(val)
+//@   assigns nothing
+
+//@ func int64ToUint
+//@   prop C13
+//@   ensures range64: intSize != 32 ==> (err == nil <==> Z(val) >= 0)
+//@   ensures range32: intSize == 32 ==> (err == nil <==> InRange(uint32, Z(val)))
+//@   ensures exact: err == nil ==> Z(result0) == Z(val)
+//@   assigns nothing
+
+// strconv.ParseInt(s, 10, bits) is assumed to return the number s denotes (strnum) within bits, or an error.
+
+//@ funcs ^stringToInt(8|16|32|64)$
+//@   prop C13
+//@   ensures exact: err == nil ==> Z(result0) == strnum(val)
+//@   assigns nothing
+
+//@ funcs ^bigIntTo(Ui|I)nt(8|16|32|64)$
+//@   prop C13
+//@   requires nonnil: val != nil
+//@   ensures range: err == nil <==> InRange(result0, bigval(val))
+//@   ensures exact: err == nil ==> Z(result0) == bigval(val)
+//@   assigns nothing
+
+//@ func bigIntToInt
+//@   prop C13
+//@   ensures range64: intSize != 32 ==> (err == nil <==> InRange(int64, bigval(val)))
+//@   ensures range32: intSize == 32 ==> (err == nil <==> InRange(int32, bigval(val)))
+//@   ensures exact: err == nil ==> Z(result0) == bigval(val)
+//@   assigns nothing
+
+//@ func bigIntToUint
+//@   prop C13
+//@   ensures range64: intSize != 32 ==> (err == nil <==> InRange(uint64, bigval(val)))
+//@   ensures range32: intSize == 32 ==> (err == nil <==> InRange(uint32, bigval(val)))
+//@   ensures exact: err == nil ==> Z(result0) == bigval(val)
+//@   assigns nothing
+
+//@ func addExact
+//@   prop C13
+//@   ensures range: !result1 <==> InRange(int64, Z(x) + Z(y))
+//@   ensures exact: !result1 ==> Z(result0) == Z(x) + Z(y)
+//@   assigns nothing
+
+// floorDiv, floorMod and multiplyExact carry no contract: their statements need a 64x64-bit product or division,
+// which none of the installed solvers decides (DESIGN.md §9). They are loop-free and are executed in place at their
+// call sites; they are reported as not under proof.
+
+// Dispatchers: for every accepted Go representation the CQL-side value is mathematically equal to the Go value, or
+// an error is returned - and an error is returned only when the value does not fit. One clause per family of
+// dynamic types; forallT expands over all ten Go integer types, so a type-switch case added or changed later is
+// covered without touching the contract.
+
+//@ funcs ^convertToInt(64|32|16|8)$
+//@   prop C13
+//@   ensures ints: forallT T in ints :: typeis(source, T) ==> ((err == nil && !wasNil && Z(val) == Z(unbox(source, T))) || (err != nil && !InRange(val, Z(unbox(source, T)))))
+//@   ensures ptrs: forallT T in ints :: typeis(source, *T) ==> ite(isnil(unbox(source, *T)), wasNil && err == nil, (err == nil && !wasNil && Z(val) == Z(old(*unbox(source, *T)))) || (err != nil && !InRange(val, Z(old(*unbox(source, *T))))))
+//@   ensures str: typeis(source, string) ==> (err == nil ==> !wasNil && Z(val) == strnum(unbox(source, string)))
+//@   ensures big: typeis(source, *big.Int) && !isnil(unbox(source, *big.Int)) && err == nil ==> !wasNil && Z(val) == bigval(unbox(source, *big.Int))
+//@   ensures null: source == nil ==> wasNil && err == nil
+
+//@ funcs ^convertFromInt(64|32|16|8)$
+//@   prop C13
+//@   ensures ints: forallT T in ints :: typeis(dest, *T) && !isnil(unbox(dest, *T)) ==> ite(wasNull, err == nil && Z(*unbox(dest, *T)) == 0, (err == nil && Z(*unbox(dest, *T)) == Z(val)) || (err != nil && !InRange(T, Z(val))))
+//@   ensures big: typeis(dest, *big.Int) && !isnil(unbox(dest, *big.Int)) && err == nil ==> bigval(unbox(dest, *big.Int)) == ite(wasNull, 0, Z(val))
+//@   ensures str: typeis(dest, *string) && !isnil(unbox(dest, *string)) && !wasNull && err == nil ==> strnum(*unbox(dest, *string)) == Z(val)
+//@   ensures nildest: forallT T in ints :: typeis(dest, *T) && isnil(unbox(dest, *T)) ==> err != nil
+
+//@ func float64ToFloat32
+//@   prop C13
+//@   ensures exact: err == nil ==> float64(result0) == val
+//@   assigns nothing
+
+//@ func convertToFloat32
+//@   prop C13
+//@   ensures f64: typeis(source, float64) && err == nil ==> !wasNil && float64(val) == unbox(source, float64)
+//@   ensures f32: typeis(source, float32) ==> err == nil && !wasNil && same(val, unbox(source, float32))
+//@   ensures p64: typeis(source, *float64) ==> ite(isnil(unbox(source, *float64)), wasNil && err == nil, err == nil ==> !wasNil && float64(val) == old(*unbox(source, *float64)))
+//@   ensures p32: typeis(source, *float32) ==> ite(isnil(unbox(source, *float32)), wasNil && err == nil, err == nil && !wasNil && same(val, old(*unbox(source, *float32))))
+//@   ensures null: source == nil ==> wasNil && err == nil
+
+//@ func convertToFloat64
+//@   prop C13
+//@   ensures f64: typeis(source, float64) ==> err == nil && !wasNil && same(val, unbox(source, float64))
+//@   ensures f32: typeis(source, float32) ==> err == nil && !wasNil && same(val, float64(unbox(source, float32)))
+//@   ensures p64: typeis(source, *float64) ==> ite(isnil(unbox(source, *float64)), wasNil && err == nil, err == nil && !wasNil && same(val, old(*unbox(source, *float64))))
+//@   ensures p32: typeis(source, *float32) ==> ite(isnil(unbox(source, *float32)), wasNil && err == nil, err == nil && !wasNil && same(val, float64(old(*unbox(source, *float32)))))
+//@   ensures null: source == nil ==> wasNil && err == nil
+
+//@ func convertFromFloat32
+//@   prop C13
+//@   ensures p64: typeis(dest, *float64) && !isnil(unbox(dest, *float64)) ==> err == nil && same(*unbox(dest, *float64), ite(wasNull, float64(0), float64(val)))
+//@   ensures p32: typeis(dest, *float32) && !isnil(unbox(dest, *float32)) ==> err == nil && same(*unbox(dest, *float32), ite(wasNull, float32(0), val))
+
+//@ func convertFromFloat64
+//@   prop C13
+//@   ensures p64: typeis(dest, *float64) && !isnil(unbox(dest, *float64)) ==> err == nil && same(*unbox(dest, *float64), ite(wasNull, float64(0), val))
+//@   ensures p32: typeis(dest, *float32) && !isnil(unbox(dest, *float32)) && err == nil ==> ite(wasNull, same(*unbox(dest, *float32), float32(0)), float64(*unbox(dest, *float32)) == val)
+
+// Date, time and timestamp accept every integer representation by falling through to the integer dispatchers.
+
+//@ funcs ^convertTo(Int32Date|Int64Time|Int64Timestamp)$
+//@   prop C13
+//@   ensures ints: forallT T in ints :: typeis(source, T) ==> ((err == nil && !wasNil && Z(val) == Z(unbox(source, T))) || (err != nil && !InRange(val, Z(unbox(source, T)))))
+//@   ensures ptrs: forallT T in ints :: typeis(source, *T) ==> ite(isnil(unbox(source, *T)), wasNil && err == nil, (err == nil && !wasNil && Z(val) == Z(old(*unbox(source, *T)))) || (err != nil && !InRange(val, Z(old(*unbox(source, *T))))))
+
+//@ funcs ^convertFrom(Int32Date|Int64Time|Int64Timestamp)$
+//@   prop C13
+//@   ensures ints: forallT T in ints :: typeis(dest, *T) && !isnil(unbox(dest, *T)) ==> ite(wasNull, err == nil && Z(*unbox(dest, *T)) == 0, (err == nil && Z(*unbox(dest, *T)) == Z(val)) || (err != nil && !InRange(T, Z(val))))
